@@ -198,6 +198,13 @@ func driveSplit(w *writer) error {
 			}
 		} else {
 			b.AddAll(fs)
+			// the caller goes on using ITS list (re-targets it, appends to it): the builder must have taken the fields, not the slice
+			for i := range fs {
+				fs[i] = modbus.Field{ServerAddress: "verif-junk:1", UnitID: 99, Address: uint16(60000 + i), Type: modbus.FieldTypeUint16, Name: "junk"}
+			}
+			if cap(fs) > len(fs) {
+				_ = append(fs, modbus.Field{ServerAddress: "verif-junk:1", UnitID: 99, Address: 61000, Type: modbus.FieldTypeCoil, Name: "junk"})
+			}
 		}
 		all := append([]sTarget{c.Target}, c.Again...)
 		for i, t := range all {
